@@ -410,6 +410,23 @@ impl<F: MatchFunc> Aligner<F> {
         }
 
         let (m, n) = (x.len(), y.len());
+        if m == 0 || n == 0 {
+            // The matrix degenerates to a single row or column: there is nothing to band, and the
+            // recurrences below assume at least one symbol in each sequence. Use the full aligner.
+            let scoring = &self.scoring;
+            let degenerate_scoring = Scoring {
+                gap_open: scoring.gap_open,
+                gap_extend: scoring.gap_extend,
+                match_fn: |a: u8, b: u8| scoring.match_fn.score(a, b),
+                match_scores: scoring.match_scores,
+                xclip_prefix: scoring.xclip_prefix,
+                xclip_suffix: scoring.xclip_suffix,
+                yclip_prefix: scoring.yclip_prefix,
+                yclip_suffix: scoring.yclip_suffix,
+            };
+            return super::Aligner::with_capacity_and_scoring(m, n, degenerate_scoring)
+                .custom(x, y);
+        }
         self.traceback.init(m, n);
 
         for k in 0..2 {
